@@ -572,10 +572,12 @@ class Engine:
         sx = None
         if i < len(self.prefix):
             taken = self.prefix[i]
+            free = True
             if i < len(self.prefix_terms):
                 sx = _sexpr(c)
-                if self.prefix_terms[i] != sx and self.mismatch is None:
-                    self.mismatch = (i, self.prefix_terms[i], sx)
+                rec_sx, free = self.prefix_terms[i]
+                if rec_sx != sx and self.mismatch is None:
+                    self.mismatch = (i, rec_sx, sx)
             self.solver.add(c if taken else z3.Not(c))
             self.model = None
         else:
@@ -597,15 +599,16 @@ class Engine:
             ro, mo = self._check(other)
             if ro == z3.unknown:
                 self.poison('solver unknown on %s' % other)
-            if ro == z3.sat:
+            free = ro == z3.sat
+            if free:
                 # both outcomes feasible: take True now, queue the sibling
                 taken = True
                 self.n_forks += 1
                 if sx is None:
                     sx = _sexpr(c)
                 self.alts.append((
-                    [t for _, t in self.trace] + [False],
-                    [s for s, _ in self.trace] + [sx],
+                    [t for _, t, _ in self.trace] + [False],
+                    [(s_, f_) for s_, _, f_ in self.trace] + [(sx, True)],
                 ))
                 if not mv:
                     self.model = mo
@@ -614,8 +617,19 @@ class Engine:
             self.solver.add(c if taken else z3.Not(c))
         if sx is None:
             sx = _sexpr(c)
-        self.trace.append((sx, taken))
+        self.trace.append((sx, taken, free))
         return taken
+
+    def path_key(self):
+        """identity of the path by its free (both-ways feasible) decisions only: independent of
+        how many forced decisions (e.g. usage assertions of the code under test) were met"""
+        import hashlib
+        h = hashlib.sha1()
+        for sx, taken, free in self.trace:
+            if free:
+                h.update(sx.encode())
+                h.update(b'1' if taken else b'0')
+        return h.hexdigest()
 
     # ---- obligations
     def assume(self, cond, text=None):
@@ -728,7 +742,7 @@ class Engine:
         return [ev(n) for n in self.notes]
 
     def pc_text(self, limit=12):
-        cs = [('' if t else 'not ') + s for s, t in self.trace if True]
+        cs = [('' if t else 'not ') + s for s, t, _ in self.trace]
         return cs[-limit:]
 
 
@@ -758,7 +772,7 @@ def norm_note(x):
 # --------------------------------------------------------------------------- one path
 class PathResult:
     __slots__ = ('status', 'detail', 'violations', 'alts', 'reached', 'trace_len', 'forks',
-                 'validated', 'sample', 'nontrivial')
+                 'validated', 'sample', 'nontrivial', 'key', 'digest')
 
 
 _drains = [0]
@@ -773,11 +787,32 @@ def _drain():
     gc.collect(0 if _drains[0] % 200 else 2)
 
 
-def run_path(fn, params, prefix, prefix_terms, validate=False, want_sample=False):
+def notes_digest(notes):
+    """canonical text of a symbolic trace: numbers as simplified terms"""
+    import hashlib
+
+    def tx(x):
+        if type(x) is SNum:
+            return z3.simplify(x.e).sexpr()
+        if type(x) is SBool:
+            return z3.simplify(x.e).sexpr()
+        if isinstance(x, (tuple, list)):
+            return '(' + ' '.join(tx(y) for y in x) + ')'
+        return repr(norm_note(x))
+    h = hashlib.sha1()
+    for n in notes:
+        h.update(tx(n).encode())
+        h.update(b';')
+    return h.hexdigest()
+
+
+def run_path(fn, params, prefix, prefix_terms, validate=False, want_sample=False,
+             want_digest=False):
     """execute the family function once along `prefix`; returns PathResult"""
     res = PathResult()
     res.validated = 0
     res.sample = None
+    res.key = res.digest = None
     E.begin_symbolic(prefix, prefix_terms)
     status, detail = 'ok', ''
     gc.disable()
@@ -795,9 +830,11 @@ def run_path(fn, params, prefix, prefix_terms, validate=False, want_sample=False
         E.closed = True
         if E.void and status != 'error':
             status, detail = 'void', E.void
+        nondet_inputs = None
         if E.mismatch is not None and status != 'error':
             status = 'nondet'
             detail = 'decision %d: recorded %s, replayed %s' % E.mismatch
+            nondet_inputs = E.path_model_inputs()[0]
         if len(E.trace) < len(E.prefix) and status in ('ok',):
             status = 'nondet'
             detail = 'path ended after %d decisions, prefix has %d' % (len(E.trace), len(E.prefix))
@@ -814,6 +851,9 @@ def run_path(fn, params, prefix, prefix_terms, validate=False, want_sample=False
         res.forks = len(E.alts)
         res.nontrivial = len(E.trace) > 0
         notes = E.notes
+        if want_digest and status == 'ok':
+            res.key = E.path_key()
+            res.digest = notes_digest(notes)
         m = None
         inputs = None
         if status == 'ok' and (validate or want_sample):
@@ -829,13 +869,23 @@ def run_path(fn, params, prefix, prefix_terms, validate=False, want_sample=False
         if validate and m is not None:
             sym_notes = [norm_note(n) for n in E.eval_notes(m)]
         _drain()
+        if nondet_inputs is not None:
+            # the code under test did not follow its own earlier decisions on re-execution:
+            # let the family judge a concrete run (C02 repeats the program and compares traces)
+            cres = run_concrete(fn, params, nondet_inputs)
+            if cres['status'] == 'ok' and cres['failed']:
+                res.status = 'ok'
+                res.detail += ' (confirmed by the concrete run)'
+                res.violations = [Violation(label, nondet_inputs,
+                                            'nondeterministic re-execution: ' + detail)
+                                  for label in dict.fromkeys(cres['failed'])]
         if sym_notes is not None:
             cres = run_concrete(fn, params, inputs)
             if cres['status'] == 'error':
                 res.status, res.detail = 'error', 'concrete validation run: ' + cres['detail']
             else:
                 conc_notes = [norm_note(n) for n in cres['notes']]
-                if conc_notes != sym_notes:
+                if conc_notes != sym_notes and not cres['failed']:
                     res.status = 'unfaithful'
                     res.detail = 'inputs %r\n symbolic: %r\n concrete: %r\n failed: %r' % (
                         inputs, sym_notes[:60], conc_notes[:60], cres['failed'])
